@@ -58,6 +58,15 @@ def socket_connect(ex, args, callee):
     return ok(UNIT)
 
 
+@stub('UdpSocket::peer_addr', 'UnixDatagram::peer_addr')
+def socket_peer_addr(ex, args, callee):
+    """Environment: whether the caller handed over an already connected socket is its choice (Ok(addr) / Err(NotConnected))."""
+    f = ex.fresh('peer_addr_fail', 'bool')
+    if ex.choose([f, z3.Not(f)], free=True) == 0:
+        return err(io_error(ex, 'peer_addr-%d' % len(ex.events)))
+    return ok(Native('SocketAddr', None, fresh_id()))
+
+
 @stub('UdpSocket::send', 'UnixDatagram::send')
 def socket_send(ex, args, callee):
     # a send on a connected socket goes to whatever peer the socket was bound to at connect time - which is not "the
